@@ -124,6 +124,21 @@ Theorem C15_interleave_chunked_refuted :
 Proof. exact interleave_chunked_refuted. Qed.
 Print Assumptions C15_interleave_chunked_refuted.
 
+(* config.log_decision as a function of its arguments (what the direct-call stream of the harness compares, for every
+   subset of the optional arguments): the keys, in order; the command text is there iff log-full is set and a command
+   was given; the values are the arguments *)
+Theorem C15_entry : forall full d c r m cmd ts,
+  map fst (entry full d c r m cmd ts) =
+    [$"decision"; $"cmd"] ++ (if is_given r then [$"rule"] else []) ++ (if is_given m then [$"message"] else [])
+    ++ (if full && is_given cmd then [$"command"] else []) ++ [$"ts"] /\
+  (In ($"command") (map fst (entry full d c r m cmd ts)) <-> full = true /\ cmd <> None) /\
+  (forall x, cmd = Some x -> full = true -> In ($"command", x) (entry full d c r m cmd ts)).
+Proof.
+  exact (fun full d c r m cmd ts => conj (direct_entry_keys full d c r m cmd ts) (conj (direct_entry_command_iff full d c r m cmd ts)
+           (proj2 (proj2 (proj2 (direct_entry_values full d c r m cmd ts)))))).
+Qed.
+Print Assumptions C15_entry.
+
 (* A process that decides more than once (library use, a test harness; Model/Cache.v is the process state:
    handler cache, MODE, _log_config, _log_disabled): for ANY state the process is in - whatever it analysed,
    configured or failed to write before - a main() run appends to the destination of ITS OWN configuration, with
